@@ -606,6 +606,7 @@ type frameExcl struct {
 	ref    smt.Term
 	lo, hi *smt.Term // Mem ranges (absolute indices)
 	whole  bool
+	every  bool      // the field of every object (Every(x.f))
 	cond   *smt.Term // "modifies loc if cond"
 }
 
@@ -673,6 +674,16 @@ func (x *exec) frameExclusions(u *Unit) []frameExcl {
 				ex = append(ex, frameExcl{prefix: vp, ref: v.one(), whole: true})
 				return
 			}
+			if id != nil && id.Name == "Every" {
+				sel, isSel := m.Args[0].(*spec.Sel)
+				if !isSel {
+					specErr("Every(x.f): a field selector is expected")
+				}
+				p := pre.lvalPtr(sel)
+				pre2, _ := e.followPath(p.Root, p.Path)
+				ex = append(ex, frameExcl{prefix: objKeyPrefix(p.Root) + pre2, every: true, whole: true, ref: e.null()})
+				return
+			}
 			if id != nil && id.Name == "deref" {
 				v := pre.eval(m.Args[0])
 				p := x.ptrOf(v)
@@ -729,7 +740,9 @@ func (x *exec) outsideFrame(u *Unit, key string, hk heapKey, r, k smt.Term) smt.
 			continue
 		}
 		var hit smt.Term
-		if ex.whole || !isMem {
+		if ex.every {
+			hit = smt.True
+		} else if ex.whole || !isMem {
 			hit = smt.Eq(r, ex.ref)
 		} else {
 			hit = smt.And(smt.Eq(r, ex.ref), inRange(*ex.lo, k, *ex.hi))
